@@ -51,6 +51,13 @@ def CONNECT_ERROR := 4
 def BINARY_EVENT := 5
 def BINARY_ACK := 6
 
+/-- `if dash > 10: raise ValueError('too many attachments')` — the most digits an attachment count
+    may have (tied to the source by `Sio.Glue.attDigitLimit_eq`) -/
+abbrev attDigitLimit : Nat := 10
+/-- `if not ep[i].isdigit() or i >= 100: break` — the most digits an id may have (tied to the source
+    by `Sio.Glue.idDigitLimit_eq`) -/
+abbrev idDigitLimit : Nat := 100
+
 /-! ### binary deconstruction / reconstruction -/
 
 def placeholder (n : Nat) : J :=
@@ -187,7 +194,7 @@ def scanAtt (cls : Char → DC) (ep : Str) : Except Err (Nat × Str) :=
   let pre := ep.takeWhile (· != '-')
   let hasDash := pre.length < ep.length
   if hasDash && !pre.isEmpty && allDigits cls pre then
-    if pre.length > 10 then .error .valueError
+    if pre.length > attDigitLimit then .error .valueError
     else do
       let n ← pyInt cls pre
       pure (n, ep.drop (pre.length + 1))
@@ -209,7 +216,7 @@ def scanId (cls : Char → DC) (ep : Str) : Except Err (Option Nat × Str) :=
   | c :: _ =>
     if (cls c).isDigit then
       let run := ep.takeWhile (fun c => (cls c).isDigit)
-      let i := min run.length 100
+      let i := min run.length idDigitLimit
       do
         let v ← pyInt cls (ep.take i)
         let ep' := ep.drop i
